@@ -12,6 +12,7 @@ import statsmodels.distributions.copula as Copula
 from .dependency import Dependency
 from statsmodels.distributions.copula.api import CopulaDistribution
 from .pbox_abc import Staircase
+from .context import get_current_dependency
 from .ecdf import get_ecdf
 from numbers import Number
 from .mixins import NominalValueMixin
@@ -267,31 +268,31 @@ class Distribution(NominalValueMixin):
 
     def __add__(self, other):
         p = self.to_pbox()
-        return p.add(other, dependency="f")
+        return p.add(other, dependency=get_current_dependency())
 
     def __radd__(self, other):
         p = self.to_pbox()
-        return p.add(other, dependency="f")
+        return p.add(other, dependency=get_current_dependency())
 
     def __sub__(self, other):
         p = self.to_pbox()
-        return p.sub(other, dependency="f")
+        return p.sub(other, dependency=get_current_dependency())
 
     def __rsub__(self, other):
         self = -self
-        return self.add(other, dependency="f")
+        return self.add(other, dependency=get_current_dependency())
 
     def __mul__(self, other):
         p = self.to_pbox()
-        return p.mul(other, dependency="f")
+        return p.mul(other, dependency=get_current_dependency())
 
     def __rmul__(self, other):
         p = self.to_pbox()
-        return p.mul(other, dependency="f")
+        return p.mul(other, dependency=get_current_dependency())
 
     def __truediv__(self, other):
         p = self.to_pbox()
-        return p.div(other, dependency="f")
+        return p.div(other, dependency=get_current_dependency())
 
     def __rtruediv__(self, other):
         p = self.to_pbox()
